@@ -671,10 +671,12 @@ package quic
 //@   invariant forall(i, 0, rangeidx, implies(budgets[min(i, len(budgets) - 1)].MaxFrameBytes > 0, len(payloads[i]) <= budgets[min(i, len(budgets) - 1)].MaxFrameBytes))
 //@   modifies sent[*]
 //@ loop validateInitialFlight #1
+//@   bodyensures [no-crypto-frame-reaches-past-the-stream] implies(ok, (cf.Offset + cf.Length) % 18446744073709551616 <= uint64(cryptoLen))
 //@   invariant len(sent) == cryptoLen && isfresh(sent)
 //@   modifies sent[*]
 //@ loop validateInitialFlight #2
 //@   invariant len(sent) == cryptoLen && isfresh(sent) && j <= cf.Offset + cf.Length
+//@   invariant [frame-inside-the-stream] (cf.Offset + cf.Length) % 18446744073709551616 <= uint64(cryptoLen)
 //@   modifies sent[*]
 //@ loop validateInitialFlight #3
 //@   invariant len(sent) == cryptoLen && 0 <= rangeidx && rangeidx <= cryptoLen && forall(k, 0, rangeidx, sent[k])
@@ -1463,9 +1465,6 @@ package quic
 //@   modifies m.activeSrcConnIDs[*], m.highestSeq
 
 // ---------------- taking connection IDs out of the routing table (C16: "after the connection closes, every ID is removed") ----------------
-//@ func (cr connRunners) ReplaceWithClosed
-//@   trusted iterates the registered transports' callbacks (function values); does not touch generator state
-//@   modifies nothing
 // RemoveAll: one removal per ID the generator knows — the client's initial destination ID (while still remembered), every
 // active ID and every ID still waiting for its retirement timer.
 //@ func (m *connIDGenerator) RemoveAll
